@@ -33,6 +33,10 @@ Programs == <<
   \* 7: base+offset instructions whose offset is also a register spelling (8, 12, 0, 31, 16)
   << <<Mn("c.lw"), Rg(10), Off(8, 9)>>, <<Mn("c.sw"), Rg(11), OffS(12, 9)>>, <<Mn("lw"), Rg(5), Off(12, 6)>>, <<Mn("sw"), Rg(5), OffS(8, 2)>>,
      <<Mn("jalr"), Rg(0), Off(16, 1)>>, <<Mn("lh"), Rg(31), Off(31, 31)>>, <<Mn("sb"), Rg(9), OffS(0, 8)>>, <<Mn("c.lw"), Rg(15), Off(0, 8)>> >>,
+  \* 8: rd = rs1 forms (the ones compression looks for), to be written with a different spelling per operand
+  << <<Mn("add"), Rg(10), Rg(10), Rg(11)>>, <<Mn("addi"), Rg(9), Rg(9), In(1)>>, <<Mn("and"), Rg(8), Rg(8), Rg(12)>>,
+     <<Mn("slli"), Rg(13), Rg(13), In(2)>>, <<Mn("sub"), Rg(14), Rg(14), Rg(15)>>, <<Mn("srli"), Rg(8), Rg(8), In(3)>>,
+     <<Mn("addi"), Rg(2), Rg(2), In(16)>>, <<Mn("xor"), Rg(9), Rg(9), Rg(8)>> >>,
   \* 6: every register in every spelling
   [j \in 1..11 |-> <<Mn("add"), Rg((3 * j - 3) % 32), Rg((3 * j - 2) % 32), Rg((3 * j - 1) % 32)>>]
 >>
